@@ -274,4 +274,117 @@ theorem enforce_shapes :
     Gen.Part.partial_G_enforce = some ("graph_map_type".toList, mapTypeIri .constant) ∧
     Gen.Part.maximal_G_enforce = some ("graph_map_type".toList, mapTypeIri .constant) := by decide
 
+
+/-! ### the passes as folds of the translated loop bodies -/
+
+/-- the translated step of a PARTIAL-AGGREGATIONS loop, packaged over the model's `Scan` state -/
+def genPartialStep (pos : Pos) (enforce : Bool) (st : Scan) (r : PRule) : Str × Scan :=
+  match pos with
+  | .S => let x := Gen.Part.partial_S st.group st.inv (pyPRuleOf r); (x.2.2, { st with group := x.1, inv := x.2.1 })
+  | .P => let x := Gen.Part.partial_P st.group st.inv enforce (pyPRuleOf r); (x.2.2, { st with group := x.1, inv := x.2.1 })
+  | .O => let x := Gen.Part.partial_O st.group st.inv st.lit (pyPRuleOf r); (x.2.2.2, { st with group := x.1, inv := x.2.1, lit := x.2.2.1 })
+  | .G => let x := Gen.Part.partial_G st.group st.inv enforce (pyPRuleOf r); (x.2.2, { st with group := x.1, inv := x.2.1 })
+
+theorem scan_frame (pos : Pos) (e : Bool) (st : Scan) (r : PRule) : (scanStep pos e st r).2.global = st.global := by
+  unfold scanStep
+  cases pos <;> simp only [] <;> (repeat' split) <;> rfl
+
+theorem scan_frame_lit (pos : Pos) (hp : pos ≠ .O) (e : Bool) (st : Scan) (r : PRule) : (scanStep pos e st r).2.lit = st.lit := by
+  unfold scanStep
+  cases pos <;> simp only [] <;> first | exact absurd rfl hp | ((repeat' split) <;> rfl)
+
+theorem Scan.ext' (a b : Scan) (h1 : a.group = b.group) (h2 : a.inv = b.inv) (h3 : a.lit = b.lit) (h4 : a.global = b.global) : a = b := by
+  cases a; cases b; simp_all
+
+/-- each translated PARTIAL-AGGREGATIONS loop body, as a function on the model's scan state, IS `Model.scanStep` -/
+theorem genPartialStep_eq (pos : Pos) (e : Bool) (he : pos = .S ∨ pos = .O → e = false) (st : Scan) (r : PRule) :
+    genPartialStep pos e st r = scanStep pos e st r := by
+  cases pos
+  · have := he (.inl rfl); subst this
+    unfold genPartialStep
+    simp only [partial_S_eq st.group st.inv st.lit st.global r]
+    refine Prod.ext rfl (Scan.ext' _ _ rfl rfl ?_ ?_)
+    · exact (scan_frame_lit .S (by decide) false st r).symm
+    · exact (scan_frame .S false st r).symm
+  · unfold genPartialStep
+    simp only [partial_P_eq st.group st.inv st.lit st.global e r]
+    refine Prod.ext rfl (Scan.ext' _ _ rfl rfl ?_ ?_)
+    · exact (scan_frame_lit .P (by decide) e st r).symm
+    · exact (scan_frame .P e st r).symm
+  · have := he (.inr rfl); subst this
+    unfold genPartialStep
+    simp only [partial_O_eq st.group st.inv st.lit st.global r]
+    refine Prod.ext rfl (Scan.ext' _ _ rfl rfl rfl ?_)
+    exact (scan_frame .O false st r).symm
+  · unfold genPartialStep
+    simp only [partial_G_eq st.group st.inv st.lit st.global e r]
+    refine Prod.ext rfl (Scan.ext' _ _ rfl rfl ?_ ?_)
+    · exact (scan_frame_lit .G (by decide) e st r).symm
+    · exact (scan_frame .G e st r).symm
+
+theorem enforceFor_S_O (pos : Pos) (rs : List PRule) : pos = .S ∨ pos = .O → enforceFor pos rs = false := by
+  rintro (rfl | rfl) <;> rfl
+
+/-- **`Model.partialPass` is the fold of the translated loop body over the sorted rule table** — what
+    `sort_values(by=<keys>)` followed by the `iterrows` loop computes, given that pandas sorts by the keys (`sort_keys`) -/
+theorem partialPass_is_translated_loop (pos : Pos) (rs : List PRule) :
+    partialPass pos rs =
+      ((sortBy (fun a b => ltKeys (pos.keys a) (pos.keys b)) rs).foldl (fun (acc : List (Nat × Str) × Scan) r =>
+        let cs := genPartialStep pos (enforceFor pos rs) acc.2 r
+        ((r.idx, cs.1) :: acc.1, cs.2)) ([], {})).1 := by
+  unfold partialPass
+  simp only [genPartialStep_eq pos (enforceFor pos rs) (fun h => enforceFor_S_O pos rs h)]
+
+
+/-- the translated step of a MAXIMAL loop over the model's `Scan` state: new label of the row and new state -/
+def genMaximalStep (pos : Pos) (enforce : Bool) (st : Scan) (r : PRule) : Str × Scan :=
+  match pos with
+  | .S => let x := Gen.Part.maximal_S st.global st.group st.inv (pyPRuleOf r)
+          (x.2.2.2, { st with global := x.1, group := x.2.1, inv := x.2.2.1 })
+  | .P => let x := Gen.Part.maximal_P st.global st.group st.inv enforce (pyPRuleOf r)
+          (x.2.2.2, { st with global := x.1, group := x.2.1, inv := x.2.2.1 })
+  | .O => let x := Gen.Part.maximal_O st.global st.group st.inv st.lit (pyPRuleOf r)
+          (x.2.2.2.2, { st with global := x.1, group := x.2.1, inv := x.2.2.1, lit := x.2.2.2.1 })
+  | .G => let x := Gen.Part.maximal_G st.global st.group st.inv enforce (pyPRuleOf r)
+          (x.2.2.2, { st with global := x.1, group := x.2.1, inv := x.2.2.1 })
+
+theorem resetAt_lit (st : Scan) (l : Str) : (resetAt st l).lit = st.lit := by
+  unfold resetAt; split <;> rfl
+
+/-- each translated MAXIMAL loop body IS the model's reset followed by `scanStep`, the new label being the old one, a dash and the
+    group component -/
+theorem genMaximalStep_eq (pos : Pos) (e : Bool) (he : pos = .S ∨ pos = .O → e = false) (st : Scan) (r : PRule) :
+    genMaximalStep pos e st r =
+      (r.label ++ ['-'] ++ (scanStep pos e (resetAt st r.label) r).1, (scanStep pos e (resetAt st r.label) r).2) := by
+  cases pos
+  · have := he (.inl rfl); subst this
+    unfold genMaximalStep
+    simp only [maximal_S_eq st.group st.inv st.lit st.global r]
+    refine Prod.ext rfl (Scan.ext' _ _ rfl rfl ?_ rfl)
+    exact ((scan_frame_lit .S (by decide) false _ r).trans (resetAt_lit st r.label)).symm
+  · unfold genMaximalStep
+    simp only [maximal_P_eq st.group st.inv st.lit st.global e r]
+    refine Prod.ext rfl (Scan.ext' _ _ rfl rfl ?_ rfl)
+    exact ((scan_frame_lit .P (by decide) e _ r).trans (resetAt_lit st r.label)).symm
+  · have := he (.inr rfl); subst this
+    unfold genMaximalStep
+    simp only [maximal_O_eq st.group st.inv st.lit st.global r]
+  · unfold genMaximalStep
+    simp only [maximal_G_eq st.group st.inv st.lit st.global e r]
+    refine Prod.ext rfl (Scan.ext' _ _ rfl rfl ?_ rfl)
+    exact ((scan_frame_lit .G (by decide) e _ r).trans (resetAt_lit st r.label)).symm
+
+/-- **`Model.maximalPass` is the fold of the translated loop body over the rule table sorted by (label so far, keys)**, started with
+    the label of the row with index 0 as `current_global_group` -/
+theorem maximalPass_is_translated_loop (pos : Pos) (rs : List PRule) :
+    maximalPass pos rs =
+      ((sortBy (fun a b => ltKeys (some a.label :: pos.keys a) (some b.label :: pos.keys b)) rs).foldl
+        (fun (acc : List PRule × Scan) r =>
+          let cs := genMaximalStep pos (enforceFor pos rs) acc.2 r
+          ({ r with label := cs.1 } :: acc.1, cs.2))
+        ([], { global := match rs.find? (fun r => r.idx = 0) with | some r => r.label | none => [] })).1.reverse := by
+  rw [maximalPass_eq]
+  simp only [genMaximalStep_eq pos (enforceFor pos rs) (fun h => enforceFor_S_O pos rs h)]
+  rfl
+
 end Props.PartFuncs
